@@ -6,6 +6,7 @@ import Babble.Props.C04
 import Babble.Props.C07
 import Babble.Props.C08
 import Babble.Props.C09
+import Babble.Props.C10
 import Babble.Props.C12
 import Babble.Props.C14
 import Babble.Props.C16
